@@ -28,6 +28,7 @@ import (
 	ft "github.com/ipfs/boxo/ipld/unixfs"
 	uio "github.com/ipfs/boxo/ipld/unixfs/io"
 	"github.com/ipfs/boxo/mfs"
+	cid "github.com/ipfs/go-cid"
 	ds "github.com/ipfs/go-datastore"
 	dssync "github.com/ipfs/go-datastore/sync"
 	ipld "github.com/ipfs/go-ipld-format"
@@ -57,10 +58,13 @@ var pointNames = map[string]string{
 	"fd.Flush:mu.Lock":               "PFdFlush",
 	"fd.Truncate:mu.Lock":            "PFdTruncate",
 	"fd.flushUp:nodeLock.Lock":       "PFlushUpNodeLock",
+	// only present when the optional hook fixes/hook-C20-dir.patch is applied
+	"Directory.getNode:lock.Lock":     "PDirGetNode",
+	"Directory.localUpdate:lock.Lock": "PDirLocalUpdate",
 }
 
 type op struct {
-	Kind string `json:"op"` // write read mode modtime chmod touch size flushfile listd
+	Kind string `json:"op"` // write read mode modtime chmod touch size flushfile listd flushdir flushpathd
 	F    int    `json:"f"`
 	Sync bool   `json:"sync,omitempty"`
 	Data string `json:"data,omitempty"`
@@ -85,6 +89,10 @@ func (o op) coq() string {
 		return vh.App("OSize", f)
 	case "flushfile":
 		return vh.App("OFlushFile", f)
+	case "flushdir":
+		return "OFlushDir"
+	case "flushpathd":
+		return "OFlushPathD"
 	}
 	return "OListD"
 }
@@ -110,9 +118,13 @@ type tstate struct {
 	unknown []string
 }
 
+// one entry of the global log: a point pass (released by the controller), or the begin/end of
+// an operation (logged by the goroutine itself)
 type pass struct {
 	T     int    `json:"t"`
-	Point string `json:"point"`
+	Point string `json:"point,omitempty"`
+	Begin int    `json:"begin_op,omitempty"` // 1-based index of the operation that begins
+	End   int    `json:"end_op,omitempty"`   // 1-based index of the operation that ended
 }
 
 type sched struct {
@@ -163,13 +175,20 @@ func runCase(fsys *world, threads [][]op, pref []int, rnd func(n int) int) (trac
 			s.byGoid[goid()] = i
 			s.mu.Unlock()
 			close(started)
-			for _, o := range threads[i] {
+			for k, o := range threads[i] {
+				s.mu.Lock()
+				s.order = append(s.order, pass{T: i, Begin: k + 1})
+				s.mu.Unlock()
 				r := fsys.exec(i, o)
+				s.mu.Lock()
+				s.order = append(s.order, pass{T: i, End: k + 1})
 				if o.Kind == "read" {
-					s.mu.Lock()
 					s.threads[i].reads = append(s.threads[i].reads, r)
-					s.mu.Unlock()
 				}
+				if strings.HasPrefix(r, "ERR ") {
+					s.threads[i].unknown = append(s.threads[i].unknown, "operation "+o.Kind+" failed: "+r)
+				}
+				s.mu.Unlock()
 			}
 			s.mu.Lock()
 			s.threads[i].done = true
@@ -243,7 +262,7 @@ func runCase(fsys *world, threads [][]op, pref []int, rnd func(n int) int) (trac
 		th := s.threads[pick]
 		th.parked = false
 		th.trace = append(th.trace, th.point)
-		s.order = append(s.order, pass{pick, th.point})
+		s.order = append(s.order, pass{T: pick, Point: th.point})
 		if _, ok := pointNames[th.point]; !ok {
 			th.unknown = append(th.unknown, th.point)
 		}
@@ -271,6 +290,68 @@ func runCase(fsys *world, threads [][]op, pref []int, rnd func(n int) int) (trac
 	}
 	order = append([]pass{}, s.order...)
 	return
+}
+
+// evictedUnderOperation reports whether the run has the signature of finding C20-3 on file f:
+// a cache-cleaning flush of the file's directory (flushdir / flushpathd, file 0 only) ran while
+// another goroutine was inside an operation that keeps using the *File it looked up before and
+// does not link its own fresh content itself: a non-sync write, File.Flush, Chmod or Touch.
+func evictedUnderOperation(threads [][]op, order []pass, f int) bool {
+	if f != 0 {
+		return false
+	}
+	type win struct{ t, from, to int }
+	window := func(t, k int) win {
+		w := win{t, -1, len(order)}
+		for i, p := range order {
+			if p.T == t && p.Begin == k+1 {
+				w.from = i
+			}
+			if p.T == t && p.End == k+1 {
+				w.to = i
+			}
+		}
+		return w
+	}
+	var flushes, victims, syncVictims, lookups []win
+	for t, ops := range threads {
+		for k, o := range ops {
+			switch {
+			case o.Kind == "flushdir" || o.Kind == "flushpathd":
+				flushes = append(flushes, window(t, k))
+			case o.F == 0 && (o.Kind == "flushfile" || o.Kind == "chmod" || o.Kind == "touch" || (o.Kind == "write" && !o.Sync)):
+				victims = append(victims, window(t, k))
+			case o.F == 0 && o.Kind == "write" && o.Sync:
+				syncVictims = append(syncVictims, window(t, k))
+			}
+			if o.F == 0 && o.Kind != "flushdir" && o.Kind != "flushpathd" {
+				lookups = append(lookups, window(t, k)) // every operation on file 0 starts by looking it up
+			}
+		}
+	}
+	overlap := func(a, b win) bool {
+		return a.t != b.t && a.from >= 0 && b.from >= 0 && a.from < b.to && b.from < a.to
+	}
+	for _, fl := range flushes {
+		for _, v := range victims {
+			if overlap(fl, v) {
+				return true
+			}
+		}
+		// a sync Close through the orphan does link its node, but it is shadowed (and later
+		// overwritten) if somebody else re-loaded the file into the cache in the meantime
+		for _, v := range syncVictims {
+			if !overlap(fl, v) {
+				continue
+			}
+			for _, l := range lookups {
+				if l.t != v.t && l.from > fl.from && l.from < v.to {
+					return true
+				}
+			}
+		}
+	}
+	return false
 }
 
 // staleMetaWriteback reports whether the run has the signature of finding C20-2 on file f:
@@ -344,7 +425,7 @@ func newWorld() (*world, error) {
 	db := dssync.MutexWrap(ds.NewMapDatastore())
 	bs := bstore.NewBlockstore(db)
 	w := &world{ctx: context.Background(), dserv: dag.NewDAGService(bserv.New(bs, offline.Exchange(bs)))}
-	rt, err := mfs.NewEmptyRoot(w.ctx, w.dserv, nil, nil)
+	rt, err := mfs.NewEmptyRoot(w.ctx, w.dserv, func(context.Context, cid.Cid) error { return nil }, nil)
 	if err != nil {
 		return nil, err
 	}
@@ -417,6 +498,17 @@ func (w *world) exec(t int, o op) string {
 		if err == nil {
 			n.(*mfs.Directory).List(w.ctx)
 		}
+	case "flushdir": // cache-cleaning flush of the parent directory of file 0
+		n, err := mfs.Lookup(w.rt, "/d")
+		if err == nil {
+			if err := n.(*mfs.Directory).Flush(); err != nil {
+				return "ERR " + err.Error()
+			}
+		}
+	case "flushpathd":
+		if _, err := mfs.FlushPath(w.ctx, w.rt, "/d"); err != nil {
+			return "ERR " + err.Error()
+		}
 	}
 	return ""
 }
@@ -460,9 +552,9 @@ func (w *world) contents(f int) (shown, persisted string, err error) {
 func genThreads(e *vh.Env, caseNo int) [][]op {
 	r := e.Rng
 	nth := 2 + r.Intn(2)
-	kinds := []string{"write", "write", "read", "mode", "modtime", "chmod", "touch", "size", "flushfile", "listd"}
+	kinds := []string{"write", "write", "write", "read", "mode", "modtime", "chmod", "touch", "size", "flushfile", "listd", "flushdir", "flushdir", "flushpathd"}
 	// most threads work on the same file so that they meet on its locks
-	hot := r.Intn(2)
+	hot := r.Intn(3) / 2 // file 0 (/d/f, the one directory flushes concern) twice as often
 	out := make([][]op, nth)
 	for t := range out {
 		n := 1 + r.Intn(3)
@@ -475,7 +567,7 @@ func genThreads(e *vh.Env, caseNo int) [][]op {
 				o.Sync = r.Intn(2) == 0
 				o.Data = fmt.Sprintf("c%d-t%d-op%d", caseNo, t, k)
 			}
-			if o.Kind == "listd" {
+			if o.Kind == "listd" || o.Kind == "flushdir" || o.Kind == "flushpathd" {
 				o.F = 0
 			}
 			out[t] = append(out[t], o)
@@ -496,8 +588,8 @@ type replay struct {
 func TestC20(t *testing.T) {
 	e := vh.Load(t)
 	st := vh.NewStats("2-3 goroutines with 1-3 operations each (write sync/non-sync, read, Mode, ModTime, Chmod, Touch, Size, File.Flush, List) mostly on one shared " +
-		"file of a fresh MFS root (/d/f, /g), one schedule per case chosen at the verifhook points before the lock acquisitions of mfs/file.go and mfs/fd.go " +
-		"(corpus: the Mode/ModTime-versus-writer schedules first; then seeded random schedules); non-trivial = at least two goroutines use the same file and " +
+		"file of a fresh MFS root (/d/f, /g), plus cache-cleaning flushes of the directory /d (Directory.Flush, FlushPath), one schedule per case chosen at the verifhook points before the lock acquisitions of mfs/file.go and mfs/fd.go " +
+		"(corpus: the Mode/ModTime-versus-writer schedules, then a descriptor Flush / sync Close / non-sync Close parked at each of its points against a directory flush; then seeded random schedules); non-trivial = at least two goroutines use the same file and " +
 		"one of them takes its node lock for writing; distinct by (operations, points passed per goroutine)")
 	cs := vh.NewCases(e, "From V Require Import model.M_C20.", "case", "check_case", 100)
 	n := e.Pick(260, 5000)
@@ -518,6 +610,27 @@ func TestC20(t *testing.T) {
 		{[][]op{{w(0, true)}, {w(0, false)}, {{Kind: "read", F: 0}}}, []int{0, 1, 2, 0, 1, 2, 0, 1, 2}},
 		{[][]op{{w(0, false), {Kind: "read", F: 0}}, {{Kind: "listd"}, {Kind: "size", F: 0}}}, []int{0, 0, 1, 0, 1, 0, 1}},
 		{[][]op{{{Kind: "flushfile", F: 1}}, {{Kind: "chmod", F: 1}}, {{Kind: "mode", F: 1}}}, []int{2, 0, 1, 2, 1, 0}},
+	}
+	// a descriptor Flush / sync Close parked at each of its points while the parent directory is
+	// flushed with cache cleaning (Directory.Flush, FlushPath): the other goroutine waits at a point
+	// of its own first operation (Size of /g) — outside the directory lock — until the descriptor
+	// has passed k points, then runs its directory flush to the end
+	for _, fl := range []string{"flushdir", "flushpathd"} {
+		for _, wr := range []op{w(0, true), {Kind: "flushfile", F: 0}, w(0, false)} {
+			for k := 1; k <= 7; k++ {
+				pref := []int{}
+				for j := 0; j < k; j++ {
+					pref = append(pref, 0)
+				}
+				pref = append(pref, 1, 1, 1, 1, 1, 0, 0, 0, 0, 0, 0, 0, 0, 0, 0)
+				wr := wr
+				wr.Data = fmt.Sprintf("%s-vs-%s-%d", wr.Kind, fl, k)
+				if wr.Kind != "write" {
+					wr.Data = ""
+				}
+				corpus = append(corpus, fixed{[][]op{{wr}, {{Kind: "size", F: 1}, {Kind: fl, F: 0}}}, pref})
+			}
+		}
 	}
 	hangs := 0
 	for i := 0; i < n; i++ {
@@ -583,6 +696,8 @@ func TestC20(t *testing.T) {
 					fid := ""
 					if staleMetaWriteback(threads, order, f) {
 						fid = "C20-2"
+					} else if evictedUnderOperation(threads, order, f) {
+						fid = "C20-3"
 					}
 					st.Violate(fmt.Sprintf("after all descriptors were closed %s shows %q, which is not an acknowledged write", files[f], shown), fid, rp)
 				}
@@ -619,11 +734,16 @@ func TestC20(t *testing.T) {
 						fid := ""
 						if staleMetaWriteback(threads, order, o.F) {
 							fid = "C20-2"
+						} else if evictedUnderOperation(threads, order, o.F) {
+							fid = "C20-3"
 						}
 						st.Violate(fmt.Sprintf("goroutine %d read %q from %s: not the data it closed itself / not an acknowledged write", ti, got, files[o.F]), fid, rp)
 					}
 				}
 			}
+		}
+		if !hung {
+			fsys.rt.Close() // stops the republisher goroutine of this root
 		}
 		var thr, trc, dn []string
 		nontriv := false
